@@ -93,7 +93,7 @@ def build_counting(ex):
 
 
 PLAN = dict(
-    id="C09",
+    id="C09", api_files=['tracing-subscriber/src/subscribe/layered.rs'],
     level="proof",
     explanation="Wrapper x trait-method matrix. The method lists of trait Collect, trait Subscribe and trait Filter are extracted from /repo on every run; for every (wrapper, method) one loop-free harness calls the method on the real wrapper around a recording stub and requires: the same method of the wrapped value is called exactly once and nothing else is, with the identical argument (pointer / id), and the symbolic result comes back unchanged. Wrappers: Box<C>, Arc<C>, Box<dyn Collect> (Collect); Box<S>, Box<dyn Subscribe>, Some, one-element Vec, reload::Subscriber, None / empty Vec / Identity ('as if absent'), two-element Vec (bounded), Layered of two layers (both once, inner before outer) (Subscribe); Box<dyn>, Arc<dyn>, Some, reload, None (Filter); Layered<layer, collector> as a Collect: collector before layer, veto semantics, on_close only after the collector closed. A trait method without a cell does not compile (=> undecided), so a method added later cannot be silently unforwarded.",
     functions_under_contract=['tracing-core/src/collect.rs: impl Collect for Box<C>, Arc<C>', 'tracing-subscriber/src/subscribe/mod.rs: impl Subscribe for Option<S>, Box<S>, Box<dyn Subscribe>, Vec<S>, Identity (subscriber_impl_body!)', 'subscribe/layered.rs: impl Collect for Layered, impl Subscribe for Layered', 'reload.rs: impl Subscribe / Filter for reload::Subscriber', 'filter/subscriber_filters/mod.rs: filter_impl_body! (Box/Arc dyn Filter), impl Filter for Option<F>'],
